@@ -35,7 +35,7 @@ func init() {
 		Technique: "seeded generative fuzzing of the real entry points in child processes (journalled inputs, recover around every call, process death attributed to the last journalled input) with an intrinsic result-shape monitor and an online step-counter termination envelope (verifhook counters as logical time)",
 		Rule:      "case = (entry point, input): request bytes (token sequences, grammar-generated and typed documents, token/byte mutations, lexical corner cases) with random operation names and JSON-like variable maps incl. wrong kinds / deep nesting / huge numbers; unvalidated parsed documents (typed documents mutated at token level, cyclic fragments, unknown names, type-system definitions mixed in, no or several operations) handed directly to ValidateDocument, PlanQuery, Execute, ExecuteSubscription, PlanCache.Get, printer.Print; schemas with and without mutation / subscription roots; zero-valued parameters; non-trivial: the input got past the lexer (>= 2 tokens) and reached validation, planning or execution; distinct by hash(entry, input)",
 		Assumptions: []string{
-			"termination is decided on logical time: total verifhook steps <= C*(size+8)^3 where size = input bytes, enforced online; a wall-clock watchdog only guards the child and its firing is inconclusive unless confirmed by an isolated re-run",
+			"termination is decided on logical time: total verifhook steps <= 5*(size+64)^2 + 50000 where size = input bytes (200x above the largest ratio observed on the clean tree), enforced online; a wall-clock watchdog only guards the child and its firing is inconclusive unless confirmed by an isolated re-run",
 			"findings are per panic site (first library frame), not per input",
 		},
 		Batches:      func(tier string) int { return map[string]int{"quick": 8, "thorough": 16}[tier] },
@@ -45,11 +45,13 @@ func init() {
 	})
 }
 
-const envC = 2.0
+const envC = 5.0
 
 // guarded runs one library call with recover and the online step envelope.
 func guarded(c *core.Child, entry string, size int, input string, f func()) (panicked bool) {
-	limit := uint64(envC*math.Pow(float64(size+8), 3)) + 200000
+	// calibrated on the clean tree: the largest observed steps/(size+64)^2 over
+	// every entry point and input class is 0.025; the envelope is 200x above it
+	limit := uint64(envC*math.Pow(float64(size+64), 2)) + 50000
 	base := verifhook.Total()
 	var done atomic.Bool
 	stop := make(chan struct{})
@@ -71,6 +73,9 @@ func guarded(c *core.Child, entry string, size int, input string, f func()) (pan
 	done.Store(true)
 	close(stop)
 	c.Eval(1)
+	d := float64(verifhook.Total() - base)
+	c.MaxExtra("max_steps_per_byte2:"+entry, d/math.Pow(float64(size+64), 2))
+	c.MaxExtra("max_steps:"+entry, d)
 	return panicked
 }
 
